@@ -219,6 +219,23 @@ def _observe_token(s, lx, st, t):
         s.lex_fail.append(("OVERLAP", t.type, st["prev_end"], start))
     else:
         _check_gap(s, src, st["prev_end"], start)
+    # a line end right after a backslash (or ??/) is half of a line splice: it never is a token of its own, and the
+    # backslash never is a stray character
+    # (a backslash that is itself escaped inside a literal is left out: the lexer pairs backslashes before it splices)
+    if t.type == "NEWLINE" and src.startswith("\n", start):
+        nb = 0
+        e = start
+        while True:
+            if src.endswith("\\", 0, e):
+                e -= 1
+            elif src.endswith("??/", 0, e):
+                e -= 3
+            else:
+                break
+            nb += 1
+        if nb % 2 == 1:
+            s.count("lex.splice_not_a_token")
+            s.lex_fail.append(("SPLICE_AS_NEWLINE", t.type, start, oracle.refpos(src, start)))
     # true position
     s.count("lex.position")
     ep = oracle.refpos(src, start)
